@@ -335,6 +335,49 @@ def parseVectors (ws : List String) : Option (List Int × List Int) :=
 
 def dot (a b : List Int) : Int := (List.zipWith (· * ·) a b).foldl (· + ·) 0
 
+/-! ### call histories on shared precomputed lines (`hist`)
+
+`hist <curve> <k> <n> b₁…b_k (<kind> a₁…a_k)×n`: the lines of `Q_j = [b_j]G2` are precomputed ONCE and the same slice (same backing
+array) is handed to `n` consecutive fixed-argument calls, call `i` on `P = [a_{i,j}]G1` through `kind` ∈ `ml` (MillerLoopFixedQ +
+FinalExponentiation), `pf` (PairFixedQ), `cf` (PairingCheckFixedQ). The specification is BY VALUE: every call is answered from its
+own arguments only (`histCall`), whatever was called before on the same lines, and the arguments are left as they were:
+`ml`/`pf` ↦ `11` (= `Pair(P,Q)`, = `e(G1,G2)^(Σ aⱼbⱼ)`), `cf` ↦ the verdict `Σ aⱼbⱼ ≡ 0 (mod r)`; then `:1` = lines and points
+byte-identical to the snapshot taken before the first call. -/
+
+/-- the answer to ONE call of a history: a function of this call's arguments only -/
+def histCall (r : Nat) (b : List Int) (kind : String) (a : List Int) : String :=
+  (if kind == "cf" then boolStr (dot a b % (r : Int) == 0) else "11") ++ ":1"
+
+def histAnswers (r : Nat) (b : List Int) (calls : List (String × List Int)) : List String :=
+  calls.map (fun c => histCall r b c.1 c.2)
+
+def chunks (m : Nat) : Nat → List String → List (List String)
+  | 0, _ => []
+  | n + 1, l => l.take m :: chunks m n (l.drop m)
+
+def parseCall (c : List String) : Option (String × List Int) :=
+  match c with
+  | kind :: as => if ["ml", "pf", "cf"].contains kind then (parseAll as).map (fun a => (kind, a)) else none
+  | [] => none
+
+/-- `<k> <n> b₁…b_k (<kind> a₁…a_k)×n`, 1 ≤ k, n ≤ 8 -/
+def parseHist (ws : List String) : Option (List Int × List (String × List Int)) :=
+  match ws with
+  | sk :: sn :: rest =>
+    match parseCount sk, parseCount sn with
+    | some k, some n =>
+      if k == 0 || k > 8 || n == 0 || n > 8 || rest.length != k + n * (k + 1) then none else
+      match parseAll (rest.take k), (chunks (k + 1) n (rest.drop k)).mapM parseCall with
+      | some b, some calls => some (b, calls)
+      | _, _ => none
+    | _, _ => none
+  | _ => none
+
+def handleHist (r : Nat) (args : List String) : String :=
+  match parseHist args with
+  | none => "bad-op"
+  | some (b, calls) => " ".intercalate (histAnswers r b calls)
+
 /-- ops that need the pairing of the curve -/
 def handleCurve {τ κ : Type} (C : PCurve τ κ) (op : String) (args : List String) : String :=
   match op with
@@ -382,6 +425,7 @@ def handleCurve {τ κ : Type} (C : PCurve τ κ) (op : String) (args : List Str
   | "reuse" => match args.mapM parseSInt with
     | some [_, _] => "1"
     | _ => "bad-op"
+  | "hist" => handleHist C.r args
   | _ => "bad-op"
 
 def handle (ws : List String) : String :=
